@@ -178,6 +178,71 @@ example : sameEntry ⟨[], 0, "application/octet-stream".toList, [⟨"3,00016370
     (afterEntry (beforeEntry ⟨[], 0, "application/octet-stream".toList, [⟨"3,0001637037d6".toList, none, [], none, "p"⟩], []⟩)) = true := by
   decide +kernel
 
+/-! ### concurrent writers: atomic inserts of distinct paths commute -/
+
+theorem kvGet_insertAll_absent (C : Codec) (k : Bytes) : ∀ (l : List (Bytes × Entry)) (s : KV), k ∉ l.map (·.1) →
+    kvGet (insertAll C s l) k = kvGet s k := by
+  intro l
+  induction l with
+  | nil => intro s _; rfl
+  | cons p t ih =>
+    intro s h
+    simp only [List.map_cons, List.mem_cons, not_or] at h
+    unfold insertAll
+    simp only [List.foldl_cons]
+    have := ih (SwV.Model.C24.insert C p.1 s p.2) h.2
+    unfold insertAll at this
+    rw [this]
+    unfold SwV.Model.C24.insert
+    exact kvGet_put_other _ _ _ _ (fun hk => h.1 hk.symm)
+
+theorem kvGet_insertAll_mem (C : Codec) (k : Bytes) (e : Entry) : ∀ (l : List (Bytes × Entry)) (s : KV), (l.map (·.1)).Nodup →
+    (k, e) ∈ l → kvGet (insertAll C s l) k = some (storeValue C (beforeEntry e)) := by
+  intro l
+  induction l with
+  | nil => intro s _ h; cases h
+  | cons p t ih =>
+    intro s hnd hmem
+    simp only [List.map_cons, List.nodup_cons] at hnd
+    rcases List.mem_cons.1 hmem with h | h
+    · subst h
+      have := kvGet_insertAll_absent C k t (SwV.Model.C24.insert C k s e) hnd.1
+      unfold insertAll at this ⊢
+      simp only [List.foldl_cons]
+      rw [this]
+      unfold SwV.Model.C24.insert
+      exact kvGet_put_same _ _ _
+    · have := ih (SwV.Model.C24.insert C p.1 s p.2) hnd.2 h
+      unfold insertAll at this ⊢
+      simp only [List.foldl_cons]
+      exact this
+
+/-- CONCURRENT WRITERS: whatever order (permutation `l'`) the atomic inserts of a batch with pairwise
+    distinct keys are executed in, and whatever the store held before, every entry of the batch is found
+    afterwards and reads back as what ITS writer wrote -/
+theorem concurrent_inserts_commute (C : Codec) (hC : C.Sound) (s : KV) (l l' : List (Bytes × Entry))
+    (hperm : l'.Perm l) (hnd : (l.map (·.1)).Nodup) (k : Bytes) (e : Entry) (hmem : (k, e) ∈ l) :
+    find C k (insertAll C s l') = some (afterEntry (beforeEntry e)) ∧
+    ∃ r, find C k (insertAll C s l') = some r ∧ sameEntry e r = true := by
+  have hnd' : (l'.map (·.1)).Nodup := (List.Perm.nodup_iff (List.Perm.map _ hperm)).2 hnd
+  have hmem' : (k, e) ∈ l' := (List.Perm.mem_iff hperm).2 hmem
+  have hfind : find C k (insertAll C s l') = some (afterEntry (beforeEntry e)) := by
+    unfold find
+    rw [kvGet_insertAll_mem C k e l' s hnd' hmem']
+    simp only [value_roundtrip C hC, Option.map_some]
+  refine ⟨hfind, _, hfind, ?_⟩
+  have := find_returns_written C hC k [] e
+  obtain ⟨r, hr, hs⟩ := this
+  rw [find_insert C hC k [] e] at hr
+  cases hr; exact hs
+
+/-- … in particular two orders of the same batch give the same answer for every key of the batch -/
+theorem concurrent_inserts_order_irrelevant (C : Codec) (hC : C.Sound) (s : KV) (l l' : List (Bytes × Entry))
+    (hperm : l'.Perm l) (hnd : (l.map (·.1)).Nodup) (k : Bytes) (e : Entry) (hmem : (k, e) ∈ l) :
+    find C k (insertAll C s l') = find C k (insertAll C s l) := by
+  rw [(concurrent_inserts_commute C hC s l l' hperm hnd k e hmem).1,
+    (concurrent_inserts_commute C hC s l l (List.Perm.refl l) hnd k e hmem).1]
+
 /-! ### hard links: lookup and native listing disagree (known finding) -/
 
 /-- FULL-STRENGTH "equal via lookup and via listing" is FALSE for hard links — known finding
@@ -301,6 +366,13 @@ theorem bridge_gzip_threshold_and_magic :
     SwV.Gen.C24.gzipCondLeveldb = "len(entry.Chunks) > 50" ∧ SwV.Gen.C24.gzipCondLeveldb2 = "len(entry.Chunks) > 50" ∧
     SwV.Gen.C24.gzipCondLeveldb3 = "len(entry.Chunks) > 50" ∧
     SwV.Gen.C24.gzipMagicTest = "data[0] == 31 && data[1] == 139" ∧ SwV.Gen.C24.gzipMagicLenGuard = "len(data) < 2" := by
+  decide
+
+/-- `GzipData` returns the bytes of a buffer it allocated itself (`buf := new(bytes.Buffer)`), so the value a
+    store hands to `db.Put` is private to that insert — the fact behind "an insert is one atomic step" — and
+    the function is otherwise unchanged -/
+theorem bridge_gzip_fresh_buffer :
+    SwV.Gen.C24.gzipOutputBuffer = "buf := new(bytes.Buffer)" ∧ SwV.Gen.C24.src_GzipData = "c0dd50744adf9eeb" := by
   decide
 
 /-- the functions the model transcribes are unchanged (source hashes) -/
